@@ -1,11 +1,13 @@
 #!/bin/bash
-# try_seeded.sh <seeded id dir> <property id> [tier]: applies seeded/<dir>/patch.diff to /repo, runs the check, reverts.
+# try_seeded.sh <seeded id dir> <property id> [tier]: applies seeded/<dir>/patch.diff to a private worktree of
+# /repo's HEAD, runs the check against it (VERIF_REPO) and removes the worktree. Evidence and replay files of
+# such runs go to /dev/shm/seeded-out, never to /verif/evidence.
 set -u
 d=$1; pid=$2; tier=${3:-quick}
-cd /repo || exit 2
-if ! git diff --quiet -- src; then echo "/repo has uncommitted src changes; refusing"; exit 2; fi
-git apply /verif/seeded/$d/patch.diff || { echo "patch does not apply"; exit 2; }
-cd /verif && ./verifctl check $pid --tier $tier 2>&1 | grep -v "^KNOWN-FINDING" | tail -${TAILN:-8} | cut -c1-${CUTN:-600}
+wt=/dev/shm/seeded-repo-$$
+git -C /repo worktree add --detach -f $wt HEAD >/dev/null 2>&1 || { echo "cannot create worktree"; exit 2; }
+trap 'git -C /repo worktree remove --force '$wt' >/dev/null 2>&1; rm -rf '$wt EXIT
+git -C $wt apply /verif/seeded/$d/patch.diff || { echo "patch does not apply"; exit 2; }
+cd /verif && VERIF_REPO=$wt VERIF_OUT=/dev/shm/seeded-out ./verifctl check $pid --tier $tier 2>&1 | grep -v "^KNOWN-FINDING" | tail -${TAILN:-8} | cut -c1-${CUTN:-600}
 rc=${PIPESTATUS[0]}
-git -C /repo checkout -- .
-echo "exit=$rc (tree reverted)"
+echo "exit=$rc"
